@@ -72,6 +72,8 @@ def parseStep (tok : String) : Option (BStep × Comp) :=
   | ["storage", n] => do let n ← smallNat n; some (.with_storage, Comp.storage n)
   | ["block", n] => do let n ← smallNat n; some (.with_block, Comp.block n)
   | ["wasm", n] => do let n ← smallNat n; some (.with_wasm, Comp.wasm n)
+  -- the same keeper wrapped in a pass-through module of the test author's own (what it notes is an implementation-only line)
+  | ["wasmrec", n] => do let n ← smallNat n; some (.with_wasm, Comp.wasm n)
   | [slot, mode] => do
     if !slotNames.contains slot then none
     let m ← parseMode mode
@@ -383,7 +385,7 @@ def doSendSubReply (st : RouteState) (app : RouteApp) (rest : List String) : Rou
   | _ => (st, "bad-op")
 
 def knownOps : List String :=
-  ["send-top", "send-sub", "send-sub-from", "send-sub-reply", "query", "query-sub", "sudo", "records", "block", "storage-dump", "init-count", "api-prefix", "wasm-gen"]
+  ["send-top", "send-sub", "send-sub-from", "send-sub-reply", "query", "query-sub", "sudo", "records", "block", "storage-dump", "init-count", "api-prefix", "wasm-gen", "wasm-calls"]
 
 def stepRoute (st : RouteState) (toks : List String) : RouteState × String :=
   match toks with
@@ -473,6 +475,7 @@ def stepRoute (st : RouteState) (toks : List String) : RouteState × String :=
         | .supplied (.api n) => (st, prefixes.getD n "?")
         | .const _ => (st, "cosmwasm")
         | _ => (st, "model-unknown")
+      | "wasm-calls", _ => (st, "!")
       | "wasm-gen", _ =>
         match app.comp .wasm with
         | .supplied (.wasm n) => (st, toString n ++ "/" ++ toString n)
